@@ -98,7 +98,7 @@ fn arb_fixed_content() -> impl Strategy<Value = fixed::Content> {
                             localname: name.to_string(),
                         },
                         attributes: unduplicate_attributes(attributes.as_slice()),
-                        prefixes: unduplicate_prefixes(prefixes.as_slice()),
+                        prefixes: element_prefixes(namespace, prefixes.as_slice()),
                         children,
                     })
                 })
@@ -118,10 +118,22 @@ prop_compose! {
                 localname: name.to_string(),
             },
             attributes: unduplicate_attributes(attributes.as_slice()),
-            prefixes: unduplicate_prefixes(prefixes.as_slice()),
+            prefixes: element_prefixes(namespace, prefixes.as_slice()),
             children: vec![children],
         }
     }
+}
+
+// An element without a namespace cannot declare a default namespace on
+// itself: its own start tag would move it into that namespace, so such a
+// tree is not an XML document.
+fn element_prefixes(namespace: &str, prefixes: &[fixed::Prefix]) -> Vec<fixed::Prefix> {
+    unduplicate_prefixes(prefixes)
+        .into_iter()
+        .filter(|prefix| {
+            !(namespace.is_empty() && prefix.name.is_empty() && !prefix.namespace.is_empty())
+        })
+        .collect()
 }
 
 fn unduplicate_attributes(attributes: &[(fixed::Name, String)]) -> Vec<(fixed::Name, String)> {
